@@ -110,6 +110,14 @@ Definition spec_check (c : case) : option bool :=
         (if (is_fmt c "phylip" || is_fmt c "phylip-strict") && Z.eqb (k_policy c) 0 then
            let '(n, l) := phylip_header (unbs (k_input c)) in
            Z.eqb (Z.of_nat (length rs)) n && Z.eqb (k_len c) l
+         else true) &&
+        (* ... and so are the counts of a Nexus DIMENSIONS command (when declared once, k_parts = [NTAX; NCHAR],
+           -1 for an absent one) *)
+        (if is_fmt c "nexus" then
+           match k_parts c with
+           | [n; l] => (Z.eqb n (-1) || Z.eqb (Z.of_nat (length rs)) n) && (Z.eqb l (-1) || Z.eqb (k_len c) l)
+           | _ => true
+           end
          else true)
     else false   (* Panic, Diverge (watchdog), Exit *)
   ).
